@@ -230,7 +230,7 @@ PROPS = {
         theorems=["Orbit.C16.write_path_order_tied_to_go_text", "Orbit.C16.received_is_prefix_of_emitted", "Orbit.C16.nothing_lost_while_alive",
                   "Orbit.C16.slow_reader_eventually_gets_everything", "Orbit.C16.write_event_not_ahead_of_state",
                   "Orbit.C16.pinned_tree_reorders"],
-        families=[("events", 80, 2500, 8)],
+        families=[("events", 80, 2500, 8), ("forge", 40, 1000, 10)],
         corr_fields={"values", "idx"},
         nontrivial=lambda lines: sum(1 for l in lines if l.startswith("event ")) >= 2 or sum(1 for l in lines if l.startswith("eread ")) >= 3,
         rule="(a) writes and replications on 2-3 replicas with a bus subscriber per replica that queries the store from inside its handler: every write/replicated event's entries must already be listed and the index must equal the replay of that listing; exactly one write event per acknowledged local write; (b) the real legacy EventEmitter with 1-2 subscribers reading at PRNG pace (bursts of up to 30 events against the 16-slot buffer) and the drainer held between dequeue and send by the hook: everything read must be 1,2,3,... in order, complete at the end; non-trivial = >= 2 store events or >= 3 reads",
